@@ -1349,14 +1349,15 @@ fn cap_address_space(bytes: u64) {
 }
 
 fn run(ctx: &mut Ctx) {
-    cap_address_space(3 << 30);
+    cap_address_space(4 << 30);
     let thorough = ctx.thorough();
-    let limit: f64 = ctx.by_tier(40_000.0, 400_000.0);
+    let limit: f64 = ctx.by_tier(40_000.0, 200_000.0);
+    let depth_limit: f64 = ctx.by_tier(160_000.0, 400_000.0);
     let mut shrunk: HashSet<String> = HashSet::new();
 
     // --- names: templates x goal shapes x goal-variable namings, complete per fact variant
     let per_variant = (TEMPLATES.len() * N_SHAPES * NAMINGS.len()) as u64;
-    ctx.phase("names", per_variant * ctx.by_tier(1, 12));
+    ctx.phase("names", per_variant * ctx.by_tier(2, 12));
     while let Some(k) = ctx.next_case() {
         if !ctx.within(0.45) {
             ctx.count("names_phase_cut_by_budget", 1);
@@ -1376,7 +1377,7 @@ fn run(ctx: &mut Ctx) {
     }
 
     // --- depth: long derivations around the documented bound
-    ctx.phase("depth", ctx.by_tier(640, 20_000));
+    ctx.phase("depth", ctx.by_tier(960, 20_000));
     while let Some(k) = ctx.next_case() {
         if !ctx.within(0.65) {
             ctx.count("depth_phase_cut_by_budget", 1);
@@ -1384,7 +1385,7 @@ fn run(ctx: &mut Ctx) {
         }
         let mut r = ctx.rng(k);
         let (cs, name) = gen_depth(&mut r);
-        let an = analyse(&cs, limit * 4.0);
+        let an = analyse(&cs, depth_limit);
         if an.skipped.is_none() {
             ctx.note("depth_programs", name);
             let top = an.expected.values().copied().max().unwrap_or(0);
@@ -1396,11 +1397,11 @@ fn run(ctx: &mut Ctx) {
         if ctx.wants_sample() && an.expected.values().any(|h| *h >= 5) {
             ctx.sample(json!({"program": name, "case": case_json(&cs), "expected_answers": an.expected.iter().map(|(t, h)| format!("{} @height {}", t3_str(t), h)).collect::<Vec<_>>(), "answers_returned": an.raw_results}));
         }
-        record(ctx, &cs, &an, &mut shrunk, limit * 4.0);
+        record(ctx, &cs, &an, &mut shrunk, depth_limit);
     }
 
     // --- filters: separately reported class
-    ctx.phase("filters", ctx.by_tier(400, 10_000));
+    ctx.phase("filters", ctx.by_tier(480, 10_000));
     while let Some(k) = ctx.next_case() {
         if !ctx.within(0.72) {
             ctx.count("filters_phase_cut_by_budget", 1);
@@ -1416,7 +1417,7 @@ fn run(ctx: &mut Ctx) {
     }
 
     // --- random programs
-    ctx.phase("random", ctx.by_tier(8_000, 400_000));
+    ctx.phase("random", ctx.by_tier(12_000, 400_000));
     while let Some(k) = ctx.next_case() {
         let mut r = ctx.rng(k);
         let cs = gen_random(&mut r, thorough);
